@@ -1345,6 +1345,11 @@ def c08_scenarios():
     for ln in (250, 255):
         S["name-of-%d-bytes" % ln] = [("w", "A", "keep", Z), ("w", "B", "keep", Z), ("s",), ("w", "A", "n" * ln, big[:300000])]
     S["big-replace"] = [("w", "A", "big", big), ("w", "B", "big", big), ("s",), ("w", "B", "big", big[::-1])]
+    # a dozen one-sided changes in one run (more actions than any plausible job count, the first of them big): whatever
+    # delivers several files at once must still stop - or report - at the first one that fails on a leftover of the
+    # killed run, and the re-runs must still converge on the uninterrupted result
+    twelve = [("w", s_, "m%02d" % i, b"v1 of m%02d " % i * 40) for i in range(12) for s_ in "AB"]
+    S["twelve-one-sided-changes"] = twelve + [("s",)] + [("w", "A", "m%02d" % i, (b"v2 of m%02d " % i) * (30000 if i == 1 else 60)) for i in range(12)]
     # K1 (repaired, see known_findings.json): a conflict-copy name of 236..245 bytes. A kill while that copy is staged
     # leaves `<name>.copia-tmp` (246..255 bytes) behind; the next run sees it as an ordinary file and has to deliver it,
     # which cannot be staged at `<name>.copia-tmp.copia-tmp`. The host is "vh": `.conflict-vh-<12 hex>` adds 25 bytes.
